@@ -125,6 +125,16 @@ def generate(tier, seed):
         for T in rnd.sample(d3, 3000):
             fam, prog = rnd.choice(skeletons(T))
             add('depth3-seeded/' + fam, prog)
+    # unparenthesised text: the parser must build the tree the language's precedence prescribes
+    leaves = [X, Y, A.N(S1), A.N(2), A.S('a')]
+    for _ in range(120 if tier == 'quick' else 3000):
+        T = A.random_term(rnd, rnd.choice([2, 3, 3]), leaves)
+        if T[0] in ('v', 'n', 's'):
+            continue
+        kind = rnd.randrange(3)
+        txt = A.tt_min(T)
+        prog = ['p(%s) :- q(X, Y).' % txt, 'p(X) :- q(%s, Y).' % txt, ':- q(X, Y), X < %s.' % txt][kind]
+        items.append({'family': 'precedence-unparenthesised', 'program': prog, 'sentinels': list(SENT), 'expected_term': A.to_sexp(T)})
     # two-rule programs combining skeletons
     n = 150 if tier == 'quick' else 2500
     for _ in range(n):
@@ -188,6 +198,13 @@ def check_item(item):
                  replay={'request': render(('tau_star', Q(prog))), 'expected': render(('panic', str(e)))})
         return [r]
     program, theory, globals_, per_rule, out_text = resp
+    if 'expected_term' in item and render(item['expected_term']) not in render(program):
+        r = dict(base)
+        r.update(verdict='violation-concrete', signature='program-parse-tree',
+                 detail='the parsed program %s does not contain the term the precedence rules prescribe: %s' % (
+                     render(program)[:400], render(item['expected_term'])),
+                 replay={'request': render(('parse_program', Q(prog))), 'expected': render((program,))})
+        return [r]
     rules = program[1:]
     formulas = theory[1:]
     base['output'] = str(out_text).strip()
